@@ -10,7 +10,7 @@ Arguments N.eqb : simpl never.
 Arguments N.add : simpl never.
 
 Ltac simp_sys := cbn [sessions rx handles now next_sid] in *.
-Ltac simp_sess := cbn [s_id s_key s_enc s_expired s_win s_exchs set_win set_exchs set_expired new_session] in *.
+Ltac simp_sess := cbn [s_id s_key s_enc s_group s_expired s_win s_exchs set_win set_exchs set_expired new_session] in *.
 
 Lemma NoDup_app_single_fresh {A} (l : list A) x : NoDup l -> ~ In x l -> NoDup (l ++ [x]).
 Proof.
@@ -226,12 +226,69 @@ Proof. intros Hle H i e Hn. destruct (H i e Hn) as [H1 H2]. split; [lia|exact H2
 
 (** ** process_rx *)
 
+(** the outcome dispatch of [handle_rx_packet] keeps the table or removes one session,
+    and leaves the RX slot empty or holding *)
+Ltac rx_dispatch Hkeep Hrem :=
+  cbn zeta;
+  match goal with
+  | |- context [match ?r with Ok _ => _ | Err _ => _ | Panic _ => _ end] => destruct r
+  end;
+  [ destruct (is_standalone_ack (m_op _));
+    [ intros H; inversion H; subst; apply Hkeep; discriminate
+    | destruct (m_op _); intros H; inversion H; subst; try (apply Hkeep; discriminate); apply Hrem; discriminate ]
+  | repeat match goal with
+           | |- context [if ?b then _ else _] => destruct b
+           end;
+    intros H; inversion H; subst; first [apply Hkeep; discriminate | apply Hrem; discriminate]
+  | intros H; inversion H; subst; apply Hkeep; discriminate ].
+
+Lemma new_sess_inv s k e g m' se1 r0 :
+  Inv s -> session_post_recv (new_session (next_sid s) k e g) m' (now s) = (se1, r0) ->
+  (forall r2, (forall mm sid i, r2 = RxTaken mm sid i -> False) ->
+     Inv (mkSys (sessions s ++ [se1]) r2 (handles s) (now s) (next_sid s + 1))) /\
+  (forall sid r2, (forall mm sid i, r2 = RxTaken mm sid i -> False) ->
+     Inv (mkSys (remove_sid (sessions s ++ [se1]) sid) r2 (handles s) (now s) (next_sid s + 1))).
+Proof.
+  intros I Hp.
+  destruct (session_post_recv_fields _ _ _ _ _ Hp) as [Eid _]. simp_sess.
+  assert (Hown1 : forall i, slot_owned (nth_error (s_exchs se1) i) = false).
+  { intros i. rewrite (post_recv_owned _ _ _ _ _ Hp i). simp_sess. destruct i; reflexivity. }
+  assert (Htime1 : time_ok (now s) se1).
+  { eapply post_recv_time; [exact Hp|]. intros i x Hn. simp_sess. destruct i; discriminate. }
+  assert (Hgen : forall ss2 r2,
+            (forall x, In x ss2 -> In x (sessions s) \/ x = se1) ->
+            NoDup (map s_id ss2) ->
+            (forall mm sid i, r2 = RxTaken mm sid i -> False) ->
+            Inv (mkSys ss2 r2 (handles s) (now s) (next_sid s + 1))).
+  { intros ss2 r2 Hin2 Hnd2 Hr2. constructor; simp_sys.
+    - exact Hnd2.
+    - intros x Hx. destruct (Hin2 x Hx) as [Hx'| ->]; [pose proof (inv_lt _ I x Hx'); lia|lia].
+    - intros sid i Hh. pose proof (inv_hlt _ I sid i Hh). lia.
+    - intros x i Hx Hs. destruct (Hin2 x Hx) as [Hx'| ->]; [apply (inv_own _ I); assumption|].
+      rewrite Hown1 in Hs. discriminate.
+    - intros x i Hx Hh. destruct (Hin2 x Hx) as [Hx'| ->]; [apply (inv_hdl _ I); assumption|].
+      exfalso. rewrite Eid in Hh. pose proof (inv_hlt _ I _ _ Hh). lia.
+    - intros mm sid i Hr. exfalso. eapply Hr2. exact Hr.
+    - intros x Hx. destruct (Hin2 x Hx) as [Hx'| ->]; [apply (inv_time _ I); assumption|exact Htime1]. }
+  assert (Hnd1 : NoDup (map s_id (sessions s ++ [se1]))).
+  { rewrite map_app. cbn [map]. apply NoDup_app_single_fresh; [apply (inv_nodup _ I)|].
+    intros Hin. apply in_map_iff in Hin. destruct Hin as [x [Ex Hx]].
+    pose proof (inv_lt _ I x Hx). lia. }
+  assert (Hin1 : forall x, In x (sessions s ++ [se1]) -> In x (sessions s) \/ x = se1).
+  { intros x Hx. apply in_app_or in Hx. destruct Hx as [Hx|[<-|[]]]; [left; exact Hx|right; reflexivity]. }
+  split.
+  - intros r2 Hr2. apply Hgen; assumption.
+  - intros sid r2 Hr2. apply Hgen; [|apply nodup_remove_sid; exact Hnd1|exact Hr2].
+    intros x Hx. apply Hin1. eapply in_remove_sid. exact Hx.
+Qed.
+
 Lemma do_rx_inv s m s' ev : Inv s -> do_rx s m = (s', ev) -> Inv s'.
 Proof.
   intros I. unfold do_rx.
   destruct (find_key (sessions s) (m_key m)) as [se|] eqn:Hk.
   - destruct (find_key_some _ _ _ Hk) as [Hse _].
-    destruct (session_post_recv se m (now s)) as [se1 r] eqn:Hp.
+    set (m1 := if s_group se then strip_mrp m else m).
+    destruct (session_post_recv se m1 (now s)) as [se1 r] eqn:Hp.
     destruct (session_post_recv_fields _ _ _ _ _ Hp) as [Eid _].
     set (ss1 := upd_sid (sessions s) (s_id se) (fun _ => se1)).
     assert (Hsub : sub_same (sessions s) ss1).
@@ -247,7 +304,6 @@ Proof.
     assert (Hlt1 : forall x, In x ss1 -> s_id x < next_sid s).
     { intros x Hx. destruct (Hsub x Hx) as [y [Hy [E _]]]. rewrite E. apply (inv_lt _ I). exact Hy. }
     assert (Hnd1 : NoDup (map s_id ss1)) by (rewrite Hids; apply (inv_nodup _ I)).
-    (* every outcome keeps [ss1] or removes one session from it, RX slot empty or holding *)
     assert (Hgen : forall ss2 r2, sub_same ss1 ss2 -> NoDup (map s_id ss2) ->
               (forall x, In x ss2 -> In x ss1) ->
               (forall mm sid i, r2 = RxTaken mm sid i -> False) ->
@@ -269,62 +325,14 @@ Proof.
               Inv (mkSys (remove_sid ss1 sid) r2 (handles s) (now s) (next_sid s))).
     { intros sid r2 Hr2. apply Hgen; [apply sub_same_remove|apply nodup_remove_sid; exact Hnd1|
         intros x; apply in_remove_sid|exact Hr2]. }
-    fold ss1. cbn zeta.
-    destruct r as [b|c|p].
-    + destruct (is_standalone_ack (m_op m)).
-      * intros H; inversion H; subst. apply Hkeep. discriminate.
-      * destruct (m_op m); intros H; inversion H; subst;
-          try (apply Hkeep; discriminate); apply Hrem; discriminate.
-    + destruct (c =? ERR_DUPLICATE); [intros H; inversion H; subst; apply Hkeep; discriminate|].
-      destruct (c =? ERR_NO_SPACE_EXCHANGES); [intros H; inversion H; subst; apply Hrem; discriminate|].
-      destruct (c =? ERR_NO_SESSION); intros H; inversion H; subst; apply Hkeep; discriminate.
-    + intros H; inversion H; subst. apply Hkeep. discriminate.
+    fold ss1. rx_dispatch Hkeep Hrem.
   - destruct (negb (m_enc m) && is_new_session (m_op m)).
-    + destruct (session_post_recv (new_session (next_sid s) (m_key m) false) m (now s)) as [se1 r] eqn:Hp.
-      destruct (session_post_recv_fields _ _ _ _ _ Hp) as [Eid _]. simp_sess.
-      assert (Hown1 : forall i, slot_owned (nth_error (s_exchs se1) i) = false).
-      { intros i. rewrite (post_recv_owned _ _ _ _ _ Hp i). simp_sess. destruct i; reflexivity. }
-      assert (Htime1 : time_ok (now s) se1).
-      { eapply post_recv_time; [exact Hp|]. intros i e Hn. simp_sess. destruct i; discriminate. }
-      assert (Hgen : forall ss2 r2,
-                (forall x, In x ss2 -> In x (sessions s) \/ x = se1) ->
-                NoDup (map s_id ss2) ->
-                (forall mm sid i, r2 = RxTaken mm sid i -> False) ->
-                Inv (mkSys ss2 r2 (handles s) (now s) (next_sid s + 1))).
-      { intros ss2 r2 Hin2 Hnd2 Hr2. constructor; simp_sys.
-        - exact Hnd2.
-        - intros x Hx. destruct (Hin2 x Hx) as [Hx'| ->]; [pose proof (inv_lt _ I x Hx'); lia|lia].
-        - intros sid i Hh. pose proof (inv_hlt _ I sid i Hh). lia.
-        - intros x i Hx Hs. destruct (Hin2 x Hx) as [Hx'| ->]; [apply (inv_own _ I); assumption|].
-          rewrite Hown1 in Hs. discriminate.
-        - intros x i Hx Hh. destruct (Hin2 x Hx) as [Hx'| ->]; [apply (inv_hdl _ I); assumption|].
-          exfalso. rewrite Eid in Hh. pose proof (inv_hlt _ I _ _ Hh). lia.
-        - intros mm sid i Hr. exfalso. eapply Hr2. exact Hr.
-        - intros x Hx. destruct (Hin2 x Hx) as [Hx'| ->]; [apply (inv_time _ I); assumption|exact Htime1]. }
-      assert (Hnd1 : NoDup (map s_id (sessions s ++ [se1]))).
-      { rewrite map_app. cbn [map]. apply NoDup_app_single_fresh; [apply (inv_nodup _ I)|].
-        intros Hin. apply in_map_iff in Hin. destruct Hin as [x [Ex Hx]].
-        pose proof (inv_lt _ I x Hx). lia. }
-      assert (Hin1 : forall x, In x (sessions s ++ [se1]) -> In x (sessions s) \/ x = se1).
-      { intros x Hx. apply in_app_or in Hx. destruct Hx as [Hx|[<-|[]]]; [left; exact Hx|right; reflexivity]. }
-      assert (Hkeep : forall r2, (forall mm sid i, r2 = RxTaken mm sid i -> False) ->
-                Inv (mkSys (sessions s ++ [se1]) r2 (handles s) (now s) (next_sid s + 1))).
-      { intros r2 Hr2. apply Hgen; assumption. }
-      assert (Hrem : forall sid r2, (forall mm sid i, r2 = RxTaken mm sid i -> False) ->
-                Inv (mkSys (remove_sid (sessions s ++ [se1]) sid) r2 (handles s) (now s) (next_sid s + 1))).
-      { intros sid r2 Hr2. apply Hgen; [|apply nodup_remove_sid; exact Hnd1|exact Hr2].
-        intros x Hx. apply Hin1. eapply in_remove_sid. exact Hx. }
-      cbn zeta.
-      destruct r as [b|c|p].
-      * destruct (is_standalone_ack (m_op m)).
-        -- intros H; inversion H; subst. apply Hkeep. discriminate.
-        -- destruct (m_op m); intros H; inversion H; subst;
-             try (apply Hkeep; discriminate); apply Hrem; discriminate.
-      * destruct (c =? ERR_DUPLICATE); [intros H; inversion H; subst; apply Hkeep; discriminate|].
-        destruct (c =? ERR_NO_SPACE_EXCHANGES); [intros H; inversion H; subst; apply Hrem; discriminate|].
-        destruct (c =? ERR_NO_SESSION); intros H; inversion H; subst; apply Hkeep; discriminate.
-      * intros H; inversion H; subst. apply Hkeep. discriminate.
-    + cbn zeta. intros H; inversion H; subst. destruct I. constructor; simp_sys; try assumption. discriminate.
+    + destruct (session_post_recv (new_session (next_sid s) (m_key m) false false) m (now s)) as [se1 r] eqn:Hp.
+      destruct (new_sess_inv _ _ _ _ _ _ _ I Hp) as [Hkeep Hrem]. rx_dispatch Hkeep Hrem.
+    + destruct (m_enc m && m_group m).
+      * destruct (session_post_recv (new_session (next_sid s) (m_key m) true true) (strip_mrp m) (now s)) as [se1 r] eqn:Hp.
+        destruct (new_sess_inv _ _ _ _ _ _ _ I Hp) as [Hkeep Hrem]. rx_dispatch Hkeep Hrem.
+      * cbn zeta. intros H; inversion H; subst. destruct I. constructor; simp_sys; try assumption. discriminate.
 Qed.
 
 (** ** handles *)
@@ -485,11 +493,43 @@ Proof.
     intros i e Hn. apply (inv_time _ I y Hy i e Hn).
 Qed.
 
+Lemma remove_inv ss r hs t k sid :
+  Inv (mkSys ss r hs t k) -> Inv (mkSys (remove_sid ss sid) r hs t k).
+Proof.
+  intros I.
+  destruct (own_hdl_sub _ _ hs (sub_same_remove ss sid) (inv_own _ I) (inv_hdl _ I)) as [Ho' Hh'].
+  constructor; simp_sys.
+  - apply nodup_remove_sid. apply (inv_nodup _ I).
+  - intros x Hx. apply (inv_lt _ I). eapply in_remove_sid. exact Hx.
+  - apply (inv_hlt _ I).
+  - exact Ho'.
+  - exact Hh'.
+  - apply (inv_taken _ I).
+  - intros x Hx. apply (inv_time _ I). simp_sys. eapply in_remove_sid. exact Hx.
+Qed.
+
+Lemma group_gc_cases ss sid : group_gc ss sid = ss \/ group_gc ss sid = remove_sid ss sid.
+Proof.
+  unfold group_gc. destruct (find_sid ss sid) as [se|]; [|left; reflexivity].
+  destruct (s_group se && forallb is_none (s_exchs se)); [right|left]; reflexivity.
+Qed.
+
+Lemma in_group_gc ss sid x : In x (group_gc ss sid) -> In x ss.
+Proof.
+  destruct (group_gc_cases ss sid) as [-> | ->]; [trivial|apply in_remove_sid].
+Qed.
+
+Lemma gc_inv ss r hs t k sid :
+  Inv (mkSys ss r hs t k) -> Inv (mkSys (group_gc ss sid) r hs t k).
+Proof.
+  intros I. destruct (group_gc_cases ss sid) as [-> | ->]; [exact I|apply remove_inv; exact I].
+Qed.
+
 (** ** every step preserves the invariant *)
 
 Theorem step_inv s l s' ev : Inv s -> step false s l = Some (s', ev) -> Inv s'.
 Proof.
-  intros I. destruct l as [m| |sid idx|sid idx|sid idx|sid idx ctr rel|sid exid| | | |key enc|sid|sid|d];
+  intros I. destruct l as [m| |sid idx|sid idx|sid idx|sid idx ctr rel|sid exid| | | |key enc grp|sid|sid|d];
     cbn [step].
   - (* LRx *)
     destruct (rx s); try discriminate. intros H; inversion H as [H1].
@@ -562,7 +602,7 @@ Proof.
           rewrite (Hnew x eq_refl) in Hs. cbn in Hs. rewrite set_dropped_not_owned in Hs. discriminate.
         - intros Hin. apply in_del_handle in Hin. exfalso. apply (proj2 Hin). reflexivity. }
       { exact (inv_own _ I). } { exact (inv_hdl _ I). }
-      constructor; simp_sys; fold f.
+      apply gc_inv. fold f. constructor; simp_sys.
       * rewrite upd_keeps_ids by reflexivity. apply (inv_nodup _ I).
       * apply lt_upd; [intros; reflexivity|apply (inv_lt _ I)].
       * exact Hhlt.
@@ -583,10 +623,16 @@ Proof.
       * exact Htaken.
       * apply (inv_time _ I).
   - (* LSend *)
-    destruct (has_handle s sid idx) eqn:Hh; [|discriminate]. apply has_handle_true in Hh.
-    destruct (find_sid (sessions s) sid) as [se|] eqn:Hf; [|discriminate].
+    destruct (has_handle s sid idx) eqn:Hh; [|discriminate]. apply has_handle_true in Hh. cbn zeta.
+    assert (Hrel : Inv (mkSys (sessions s) (release_rx (rx s) sid idx) (handles s) (now s) (next_sid s))).
+    { destruct I. constructor; simp_sys; try assumption.
+      intros mm a b E. unfold release_rx in E. destruct (rx s) as [|m0|m0 a0 b0] eqn:Hrx; try discriminate.
+      destruct ((a0 =? sid) && (b0 =? idx)%nat); [discriminate|]. inversion E; subst.
+      apply (inv_taken0 _ _ _ eq_refl). }
+    destruct (find_sid (sessions s) sid) as [se|] eqn:Hf; [|intros H; inversion H; subst; exact Hrel].
     destruct (find_sid_some _ _ _ Hf) as [Hse Eid]. subst sid.
-    destruct (nth_error (s_exchs se) idx) as [[e|]|] eqn:Hn; try discriminate.
+    destruct (nth_error (s_exchs se) idx) as [[e|]|] eqn:Hn; try (intros H; inversion H; subst; exact Hrel).
+    destruct (s_group se); [intros H; inversion H; subst; exact Hrel|].
     destruct (rm_pre_send (e_mrp e) ctr rel None) as [r' rr] eqn:Hps.
     pose proof (inv_hdl _ I se idx Hse Hh) as Hown. rewrite Hn in Hown. cbn in Hown.
     set (e1 := mkExch (e_id e) (e_role e) r' (e_rat e)).
@@ -699,7 +745,7 @@ Proof.
         intros Hin. pose proof (inv_hdl _ I se i Hse Hin) as Hc. rewrite Hn in Hc. cbn in Hc.
         rewrite (dropped_not_owned _ Hd) in Hc. discriminate. }
       { exact (inv_own _ I). } { exact (inv_hdl _ I). }
-      constructor; simp_sys; unfold set_slot; fold f.
+      apply gc_inv. unfold set_slot; fold f. constructor; simp_sys.
       * rewrite upd_keeps_ids by reflexivity. apply (inv_nodup _ I).
       * apply lt_upd; [intros; reflexivity|apply (inv_lt _ I)].
       * apply (inv_hlt _ I).
@@ -711,8 +757,8 @@ Proof.
         intros x Hx. rewrite (nth_set_nth_here _ _ _ _ Hn) in Hx. discriminate.
   - (* LAddSession *)
     intros H; inversion H; subst; clear H.
-    assert (Hin1 : forall x, In x (sessions s ++ [new_session (next_sid s) key enc]) ->
-              In x (sessions s) \/ x = new_session (next_sid s) key enc).
+    assert (Hin1 : forall x, In x (sessions s ++ [new_session (next_sid s) key enc grp]) ->
+              In x (sessions s) \/ x = new_session (next_sid s) key enc grp).
     { intros x Hx. apply in_app_or in Hx. destruct Hx as [Hx|[<-|[]]]; [left; exact Hx|right; reflexivity]. }
     constructor; simp_sys.
     + rewrite map_app. cbn [map]. apply NoDup_app_single_fresh; [apply (inv_nodup _ I)|].
